@@ -3,8 +3,11 @@
    order, the id the generator hands out next), the arguments of Cas._find_all_fs (include_inlinable_arrays_and_lists,
    optional explicit seeds) and what `list(cas._find_all_fs(...))` did: the error kind, or the (xmiID, label) pairs in
    the order returned, the xmiID of every object afterwards and the generator's next id afterwards.
-   check_case evaluates the model Reach.find_all_fs / find_all_from with fuel_bound and compares. *)
-From Cassis Require Import Base Heap Schema Reach.
+   check_case evaluates the model Reach.find_all_fs / find_all_from with fuel_bound and compares.
+   Second observation (second-wave hardening): what `cas.to_xmi()` did on a CAS built the same way — returned, or raised
+   ValueError; compared with ReachList.to_xmi_lists (traversal + the list walks of the writer: a list of any kind written
+   inline whose tail chain is cyclic is refused, a forced duplicate id is refused, everything else is written). *)
+From Cassis Require Import Base Heap Schema Reach ReachList.
 Open Scope Z_scope.
 
 Record case := mkCase {
@@ -15,7 +18,8 @@ Record case := mkCase {
   k_err : option err;                   (* Some e: the call raised (kind) *)
   k_found : list (xid * oid);           (* returned feature structures, in order *)
   k_ids : list (oid * option xid);      (* xmiID of every object after the call *)
-  k_next : Z }.                         (* next id of the generator after the call *)
+  k_next : Z;                           (* next id of the generator after the call *)
+  k_xmi : option bool }.                (* to_xmi on a twin CAS: Some true returned, Some false raised ValueError, None not compared *)
 
 Definition model (c : case) : res wstate :=
   match k_seeds c with
@@ -27,13 +31,25 @@ Definition pair_eqb (a b : xid * oid) : bool := Z.eqb (fst a) (fst b) && N.eqb (
 Definition ids_agree (h : heap) (l : list (oid * option xid)) : bool :=
   forallb (fun p => match hget h (fst p) with Some f => opt_eqb Z.eqb (o_id f) (snd p) | None => false end) l.
 
-Definition check_case (c : case) : bool :=
+Definition xmi_agrees (c : case) : bool :=
+  match k_xmi c with
+  | None => true
+  | Some returned =>
+    match to_xmi_lists (k_schema c) (k_cas c) with
+    | Ok _ => returned
+    | Err EValue | Err EDupId => negb returned       (* both are ValueError in the implementation *)
+    | _ => false
+    end
+  end.
+
+Definition check_traversal (c : case) : bool :=
   match model c, k_err c with
   | Ok w, None => list_eqb pair_eqb (w_all w) (k_found c) && ids_agree (w_heap w) (k_ids c) && Z.eqb (w_next w) (k_next c)
                   && match w_open w with [] => true | _ => false end
   | Err e, Some e' => err_eqb e e'
   | _, _ => false
   end.
+Definition check_case (c : case) : bool := check_traversal c && xmi_agrees c.
 
 (* premises of find_all_total: every scanned value is None or a live reference, seeds are live *)
 Definition premises (c : case) : bool :=
@@ -47,18 +63,25 @@ Open Scope string_scope.
 Definition schemaG : schema :=
 (* BEGIN schemaG *)
 [mkTi "g.Ann"%string ["g.Ann"%string; "uima.tcas.Annotation"%string; "uima.cas.AnnotationBase"%string; "uima.cas.TOP"%string] [mkFd "ref"%string "ref"%string "g.Node"%string None false; mkFd "arr"%string "arr"%string "uima.cas.FSArray"%string None false; mkFd "lst"%string "lst"%string "uima.cas.FSList"%string None false; mkFd "begin"%string "begin"%string "uima.cas.Integer"%string None false; mkFd "end"%string "end"%string "uima.cas.Integer"%string None false; mkFd "sofa"%string "sofa"%string "uima.cas.Sofa"%string None false];
-  mkTi "g.Node"%string ["g.Node"%string; "uima.cas.TOP"%string] [mkFd "a"%string "a"%string "g.Node"%string None false; mkFd "b"%string "b"%string "g.Node"%string None false; mkFd "top"%string "top"%string "uima.cas.TOP"%string None false; mkFd "arr"%string "arr"%string "uima.cas.FSArray"%string (Some "g.Node"%string) false; mkFd "sarr"%string "sarr"%string "uima.cas.FSArray"%string (Some "g.Node"%string) true; mkFd "lst"%string "lst"%string "uima.cas.FSList"%string None false; mkFd "slst"%string "slst"%string "uima.cas.FSList"%string None true; mkFd "n"%string "n"%string "uima.cas.Integer"%string None false; mkFd "ints"%string "ints"%string "uima.cas.IntegerArray"%string None false; mkFd "strs"%string "strs"%string "uima.cas.StringList"%string None true];
-  mkTi "g.Sub"%string ["g.Sub"%string; "g.Node"%string; "uima.cas.TOP"%string] [mkFd "c"%string "c"%string "g.Node"%string None false; mkFd "farr"%string "farr"%string "uima.cas.FSArray"%string None false; mkFd "a"%string "a"%string "g.Node"%string None false; mkFd "b"%string "b"%string "g.Node"%string None false; mkFd "top"%string "top"%string "uima.cas.TOP"%string None false; mkFd "arr"%string "arr"%string "uima.cas.FSArray"%string (Some "g.Node"%string) false; mkFd "sarr"%string "sarr"%string "uima.cas.FSArray"%string (Some "g.Node"%string) true; mkFd "lst"%string "lst"%string "uima.cas.FSList"%string None false; mkFd "slst"%string "slst"%string "uima.cas.FSList"%string None true; mkFd "n"%string "n"%string "uima.cas.Integer"%string None false; mkFd "ints"%string "ints"%string "uima.cas.IntegerArray"%string None false; mkFd "strs"%string "strs"%string "uima.cas.StringList"%string None true];
+  mkTi "g.Node"%string ["g.Node"%string; "uima.cas.TOP"%string] [mkFd "a"%string "a"%string "g.Node"%string None false; mkFd "b"%string "b"%string "g.Node"%string None false; mkFd "top"%string "top"%string "uima.cas.TOP"%string None false; mkFd "arr"%string "arr"%string "uima.cas.FSArray"%string (Some "g.Node"%string) false; mkFd "sarr"%string "sarr"%string "uima.cas.FSArray"%string (Some "g.Node"%string) true; mkFd "lst"%string "lst"%string "uima.cas.FSList"%string None false; mkFd "slst"%string "slst"%string "uima.cas.FSList"%string None true; mkFd "n"%string "n"%string "uima.cas.Integer"%string None false; mkFd "ints"%string "ints"%string "uima.cas.IntegerArray"%string None false; mkFd "strs"%string "strs"%string "uima.cas.StringList"%string None true; mkFd "il"%string "il"%string "uima.cas.IntegerList"%string None false; mkFd "fl"%string "fl"%string "uima.cas.FloatList"%string None false; mkFd "sl"%string "sl"%string "uima.cas.StringList"%string None false; mkFd "sil"%string "sil"%string "uima.cas.IntegerList"%string None true];
+  mkTi "g.Sub"%string ["g.Sub"%string; "g.Node"%string; "uima.cas.TOP"%string] [mkFd "c"%string "c"%string "g.Node"%string None false; mkFd "farr"%string "farr"%string "uima.cas.FSArray"%string None false; mkFd "a"%string "a"%string "g.Node"%string None false; mkFd "b"%string "b"%string "g.Node"%string None false; mkFd "top"%string "top"%string "uima.cas.TOP"%string None false; mkFd "arr"%string "arr"%string "uima.cas.FSArray"%string (Some "g.Node"%string) false; mkFd "sarr"%string "sarr"%string "uima.cas.FSArray"%string (Some "g.Node"%string) true; mkFd "lst"%string "lst"%string "uima.cas.FSList"%string None false; mkFd "slst"%string "slst"%string "uima.cas.FSList"%string None true; mkFd "n"%string "n"%string "uima.cas.Integer"%string None false; mkFd "ints"%string "ints"%string "uima.cas.IntegerArray"%string None false; mkFd "strs"%string "strs"%string "uima.cas.StringList"%string None true; mkFd "il"%string "il"%string "uima.cas.IntegerList"%string None false; mkFd "fl"%string "fl"%string "uima.cas.FloatList"%string None false; mkFd "sl"%string "sl"%string "uima.cas.StringList"%string None false; mkFd "sil"%string "sil"%string "uima.cas.IntegerList"%string None true];
   mkTi "uima.cas.AnnotationBase"%string ["uima.cas.AnnotationBase"%string; "uima.cas.TOP"%string] [mkFd "sofa"%string "sofa"%string "uima.cas.Sofa"%string None false];
   mkTi "uima.cas.ArrayBase"%string ["uima.cas.ArrayBase"%string; "uima.cas.TOP"%string] [mkFd "elements"%string "elements"%string "uima.cas.TOP"%string None true];
   mkTi "uima.cas.EmptyFSList"%string ["uima.cas.EmptyFSList"%string; "uima.cas.FSList"%string; "uima.cas.ListBase"%string; "uima.cas.TOP"%string] [];
+  mkTi "uima.cas.EmptyFloatList"%string ["uima.cas.EmptyFloatList"%string; "uima.cas.FloatList"%string; "uima.cas.ListBase"%string; "uima.cas.TOP"%string] [];
+  mkTi "uima.cas.EmptyIntegerList"%string ["uima.cas.EmptyIntegerList"%string; "uima.cas.IntegerList"%string; "uima.cas.ListBase"%string; "uima.cas.TOP"%string] [];
   mkTi "uima.cas.EmptyStringList"%string ["uima.cas.EmptyStringList"%string; "uima.cas.StringList"%string; "uima.cas.ListBase"%string; "uima.cas.TOP"%string] [];
   mkTi "uima.cas.FSArray"%string ["uima.cas.FSArray"%string; "uima.cas.ArrayBase"%string; "uima.cas.TOP"%string] [mkFd "elements"%string "elements"%string "uima.cas.TOP"%string None true];
   mkTi "uima.cas.FSList"%string ["uima.cas.FSList"%string; "uima.cas.ListBase"%string; "uima.cas.TOP"%string] [];
+  mkTi "uima.cas.Float"%string ["uima.cas.Float"%string; "uima.cas.TOP"%string] [];
+  mkTi "uima.cas.FloatList"%string ["uima.cas.FloatList"%string; "uima.cas.ListBase"%string; "uima.cas.TOP"%string] [];
   mkTi "uima.cas.Integer"%string ["uima.cas.Integer"%string; "uima.cas.TOP"%string] [];
   mkTi "uima.cas.IntegerArray"%string ["uima.cas.IntegerArray"%string; "uima.cas.ArrayBase"%string; "uima.cas.TOP"%string] [mkFd "elements"%string "elements"%string "uima.cas.TOP"%string None true];
+  mkTi "uima.cas.IntegerList"%string ["uima.cas.IntegerList"%string; "uima.cas.ListBase"%string; "uima.cas.TOP"%string] [];
   mkTi "uima.cas.ListBase"%string ["uima.cas.ListBase"%string; "uima.cas.TOP"%string] [];
   mkTi "uima.cas.NonEmptyFSList"%string ["uima.cas.NonEmptyFSList"%string; "uima.cas.FSList"%string; "uima.cas.ListBase"%string; "uima.cas.TOP"%string] [mkFd "head"%string "head"%string "uima.cas.TOP"%string None true; mkFd "tail"%string "tail"%string "uima.cas.FSList"%string None true];
+  mkTi "uima.cas.NonEmptyFloatList"%string ["uima.cas.NonEmptyFloatList"%string; "uima.cas.FloatList"%string; "uima.cas.ListBase"%string; "uima.cas.TOP"%string] [mkFd "head"%string "head"%string "uima.cas.Float"%string None false; mkFd "tail"%string "tail"%string "uima.cas.FloatList"%string None true];
+  mkTi "uima.cas.NonEmptyIntegerList"%string ["uima.cas.NonEmptyIntegerList"%string; "uima.cas.IntegerList"%string; "uima.cas.ListBase"%string; "uima.cas.TOP"%string] [mkFd "head"%string "head"%string "uima.cas.Integer"%string None false; mkFd "tail"%string "tail"%string "uima.cas.IntegerList"%string None true];
   mkTi "uima.cas.NonEmptyStringList"%string ["uima.cas.NonEmptyStringList"%string; "uima.cas.StringList"%string; "uima.cas.ListBase"%string; "uima.cas.TOP"%string] [mkFd "head"%string "head"%string "uima.cas.String"%string None false; mkFd "tail"%string "tail"%string "uima.cas.StringList"%string None true];
   mkTi "uima.cas.Sofa"%string ["uima.cas.Sofa"%string; "uima.cas.TOP"%string] [mkFd "sofaNum"%string "sofaNum"%string "uima.cas.Integer"%string None false; mkFd "sofaID"%string "sofaID"%string "uima.cas.String"%string None false; mkFd "mimeType"%string "mimeType"%string "uima.cas.String"%string None false; mkFd "sofaArray"%string "sofaArray"%string "uima.cas.TOP"%string None true; mkFd "sofaString"%string "sofaString"%string "uima.cas.String"%string None false; mkFd "sofaURI"%string "sofaURI"%string "uima.cas.String"%string None false];
   mkTi "uima.cas.String"%string ["uima.cas.String"%string; "uima.cas.TOP"%string] [];
